@@ -490,3 +490,309 @@ class PostprocessingItemApply(Contract):
 
     def frame_ok(self, I, inp, obj, name):
         return False
+
+
+# ----------------------------------------------------------------------------------------------- condition expressions: binding names
+CE = "sigma.processing.condition_expressions"
+CBASE = "sigma.processing.conditions.base"
+CR = "sigma.processing.conditions.rule"
+
+
+@register
+class IdentifierResolve(Contract):
+    """ConditionIdentifier.resolve: the identifier is bound to the condition defined under exactly that name; an unknown name is a
+    condition error; the set of resolved names is {name}"""
+    id = "C13.ConditionIdentifier.resolve"
+    target = f"{CE}:ConditionIdentifier.resolve"
+    props = ("C13",)
+    cases = ("known", "unknown")
+
+    def args(self, I, case):
+        a, b = SObj("CondA", {}), SObj("CondB", {})
+        me = SObj(I.E.index.lookup(f"{CE}:ConditionIdentifier"), {"identifier": "b" if case == "known" else "zz", "expression": "a and b", "location": 3}, lazy=True)
+        return {"self": me, "args": [{"a": a, "b": b}], "b": b, "case": case}
+
+    def post(self, I, inp, r):
+        r = I.force(r)
+        I.ctx.require(inp["case"] == "known" and inp["self"].fields.get("_condition") is inp["b"] and r == {"b"}, "bound to the condition of that name; the resolved names are {name}")
+
+    def raises(self, I, inp, exc):
+        I.ctx.require(inp["case"] == "unknown" and exc_is(I, exc, "SigmaPipelineConditionError"), f"an unknown name is a SigmaPipelineConditionError (got {exc_name(exc)})")
+
+    def frame_ok(self, I, inp, obj, name):
+        return obj is inp["self"] and name == "_condition"
+
+
+def _mk_resolve(clsname, fields):
+    class C(Contract):
+        __doc__ = f"{clsname}.resolve: every operand is resolved against the SAME mapping; the result is the union of what the operands resolved"
+        id = f"C13.{clsname}.resolve"
+        target = f"{CE}:{clsname}.resolve"
+        props = ("C13",)
+
+        def args(self, I):
+            seen = []
+            sets = {"left": {"a", "b"}, "right": {"b", "c"}, "condition": {"x"}}
+            f = {n: SObj("Expr", {"resolve": NativeFn("resolve", (lambda n: lambda I2, a, k: (seen.append((n, a[0])), set(sets[n]))[1])(n))}) for n in fields}
+            me = SObj(I.E.index.lookup(f"{CE}:{clsname}"), f, lazy=True)
+            conds = {"a": 1}
+            return {"self": me, "args": [conds], "seen": seen, "conds": conds, "want": set().union(*[sets[n] for n in fields])}
+
+        def post(self, I, inp, r):
+            r = I.force(r)
+            I.ctx.require(sorted(n for n, _ in inp["seen"]) == sorted(fields) and all(c is inp["conds"] for _, c in inp["seen"]), "each operand is resolved once against the given mapping")
+            I.ctx.require(isinstance(r, set) and r == inp["want"], "the union of the operands' resolved names")
+
+        def frame_ok(self, I, inp, obj, name):
+            return False
+    C.__name__ = f"Resolve_{clsname}"
+    return C
+
+
+register(_mk_resolve("BinaryConditionOp", ("left", "right")))
+register(_mk_resolve("ConditionNOT", ("condition",)))
+
+
+@register
+class BinaryFromParsed(Contract):
+    """BinaryConditionOp.from_parsed: `a OP b OP c ...` (operands at the even positions of the token list) becomes the left-nested tree
+    ((a OP b) OP c) ... of the class it is called on - every operand exactly once, in order"""
+    id = "C13.BinaryConditionOp.from_parsed"
+    target = f"{CE}:BinaryConditionOp.from_parsed"
+    props = ("C13",)
+    cases = tuple((cls, n) for cls in ("ConditionAND", "ConditionOR") for n in (2, 3, 4))
+
+    def args(self, I, case):
+        cls, n = case
+        ops_ = [SObj("Operand", {"n": i}) for i in range(n)]
+        toks = []
+        for i, o in enumerate(ops_):
+            if i:
+                toks.append("and" if cls == "ConditionAND" else "or")
+            toks.append(o)
+        return {"self": ClassRef(I.E.index.lookup(f"{CE}:{cls}")), "args": ["the expression text", 7, [toks]], "ops": ops_, "case": case}
+
+    def post(self, I, inp, r):
+        cls, n = inp["case"]
+        leaves = []
+
+        def walk(x):
+            if isinstance(x, SObj) and getattr(x.cls, "name", None) == cls:
+                walk(x.fields["left"])
+                walk(x.fields["right"])
+                return True
+            leaves.append(x)
+        top = isinstance(r, SObj) and getattr(r.cls, "name", None) == cls
+        I.ctx.require(top, f"a {cls} node")
+        if top:
+            walk(r)
+            I.ctx.require(len(leaves) == n and all(a is b for a, b in zip(leaves, inp["ops"])), "its leaves are the operands, each once, in order (operator tokens skipped)")
+            I.ctx.require(r.fields.get("expression") == "the expression text" and r.fields.get("location") == 7, "expression text and location are recorded")
+
+    def frame_ok(self, I, inp, obj, name):
+        return False
+
+
+@register
+class NotFromParsed(Contract):
+    """ConditionNOT.from_parsed: `not x` negates x (the token after the operator)"""
+    id = "C13.ConditionNOT.from_parsed"
+    target = f"{CE}:ConditionNOT.from_parsed"
+    props = ("C13",)
+
+    def args(self, I):
+        x = SObj("Operand", {})
+        return {"self": ClassRef(I.E.index.lookup(f"{CE}:ConditionNOT")), "args": ["text", 2, [["not", x]]], "x": x}
+
+    def post(self, I, inp, r):
+        I.ctx.require(isinstance(r, SObj) and getattr(r.cls, "name", None) == "ConditionNOT" and r.fields.get("condition") is inp["x"] and r.fields.get("expression") == "text", "a NOT node over the operand")
+
+    def frame_ok(self, I, inp, obj, name):
+        return False
+
+
+@register
+class IdentifierFromParsed(Contract):
+    """ConditionIdentifier.from_parsed: the token is the identifier"""
+    id = "C13.ConditionIdentifier.from_parsed"
+    target = f"{CE}:ConditionIdentifier.from_parsed"
+    props = ("C13",)
+
+    def args(self, I):
+        name = I.fresh("name", "str")
+        return {"self": ClassRef(I.E.index.lookup(f"{CE}:ConditionIdentifier")), "args": ["text", 4, [name]], "name": name}
+
+    def post(self, I, inp, r):
+        I.ctx.require(isinstance(r, SObj) and getattr(r.cls, "name", None) == "ConditionIdentifier" and r.fields.get("identifier") is inp["name"] and r.fields.get("location") == 4 and r.fields.get("expression") == "text", "an identifier node for that name")
+
+    def frame_ok(self, I, inp, obj, name):
+        return False
+
+
+# ----------------------------------------------------------------------------------------------- field-name conditions on values, rule walkers
+@register
+class FieldNameMatchValue(Contract):
+    """FieldNameProcessingCondition.match_value: a field reference is judged by the name it refers to; any other value never matches"""
+    id = "C13.FieldNameProcessingCondition.match_value"
+    target = f"{CBASE}:FieldNameProcessingCondition.match_value"
+    props = ("C13",)
+    cases = ("SigmaFieldReference", "SigmaString", "SigmaNumber", "SigmaRegularExpression")
+
+    def args(self, I, case):
+        asked = []
+        verdict = I.fresh("verdict", "bool")
+        fld = I.fresh("referenced", "str")
+        v = SObj(I.E.index.lookup(f"sigma.types:{case}"), {"field": fld}, lazy=True)
+        me = SObj(I.E.index.lookup(f"{CBASE}:FieldNameProcessingCondition"), {"match_field_name": NativeFn("mfn", lambda I2, a, k: (asked.append(a[0]), verdict)[1])}, lazy=True)
+        return {"self": me, "args": [v], "asked": asked, "verdict": verdict, "fld": fld, "case": case}
+
+    def post(self, I, inp, r):
+        if inp["case"] == "SigmaFieldReference":
+            I.ctx.require(r is inp["verdict"] and len(inp["asked"]) == 1 and inp["asked"][0] is inp["fld"], "the verdict on the referenced field name")
+        else:
+            I.ctx.require(r is False and inp["asked"] == [], "not a field reference: no match")
+
+    def frame_ok(self, I, inp, obj, name):
+        return False
+
+
+@register
+class FieldNameMatchItemParts(Contract):
+    """FieldNameProcessingCondition.match_detection_item_field / _value: the field part is judged by the item's field name, the value part
+    holds iff some value matches"""
+    id = "C13.FieldNameProcessingCondition.match_detection_item_value"
+    target = f"{CBASE}:FieldNameProcessingCondition.match_detection_item_value"
+    props = ("C13",)
+    cases = (0, 1, 3)
+
+    def args(self, I, case):
+        vals = [SObj("Value", {"i": i}) for i in range(case)]
+        vs = [I.fresh(f"value{i}_matches", "bool") for i in range(case)]
+        item = SObj(I.E.index.lookup("sigma.rule.detection:SigmaDetectionItem"), {"value": list(vals)}, lazy=True)
+        me = SObj(I.E.index.lookup(f"{CBASE}:FieldNameProcessingCondition"), {"match_value": NativeFn("mv", lambda I2, a, k: vs[a[0].fields["i"]])}, lazy=True)
+        return {"self": me, "args": [item], "vs": vs}
+
+    def post(self, I, inp, r):
+        I.ctx.require(ops.mk_bool_term(ops.truth(I, r)) == ops.mk_or([v.t for v in inp["vs"]]), "holds iff some value matches")
+
+    def frame_ok(self, I, inp, obj, name):
+        return False
+
+
+@register
+class FieldNameMatchItemField(Contract):
+    id = "C13.FieldNameProcessingCondition.match_detection_item_field"
+    target = f"{CBASE}:FieldNameProcessingCondition.match_detection_item_field"
+    props = ("C13",)
+    __doc__ = "match_detection_item_field: the verdict on the item's own field name"
+
+    def args(self, I):
+        asked = []
+        verdict, fld = I.fresh("verdict", "bool"), I.fresh("field", "str")
+        item = SObj(I.E.index.lookup("sigma.rule.detection:SigmaDetectionItem"), {"field": fld}, lazy=True)
+        me = SObj(I.E.index.lookup(f"{CBASE}:FieldNameProcessingCondition"), {"match_field_name": NativeFn("mfn", lambda I2, a, k: (asked.append(a[0]), verdict)[1])}, lazy=True)
+        return {"self": me, "args": [item], "asked": asked, "verdict": verdict, "fld": fld}
+
+    def post(self, I, inp, r):
+        I.ctx.require(r is inp["verdict"] and len(inp["asked"]) == 1 and inp["asked"][0] is inp["fld"], "the verdict on the item's field name")
+
+    def frame_ok(self, I, inp, obj, name):
+        return False
+
+
+@register
+class RuleDetectionItemConditionMatch(Contract):
+    """RuleDetectionItemCondition.match: a detection rule matches iff find_detection_item holds for one of its detections (all of them are
+    looked at); a correlation rule never matches"""
+    id = "C13.RuleDetectionItemCondition.match"
+    target = f"{CBASE}:RuleDetectionItemCondition.match"
+    props = ("C13",)
+    cases = ("rule0", "rule1", "rule3", "correlation")
+
+    def args(self, I, case):
+        idx = I.E.index
+        n = {"rule0": 0, "rule1": 1, "rule3": 3, "correlation": 0}[case]
+        dets = {f"d{i}": SObj("Detection", {"i": i}) for i in range(n)}
+        vs = [I.fresh(f"found_in_d{i}", "bool") for i in range(n)]
+        if case == "correlation":
+            rule = SObj(idx.lookup("sigma.correlations:SigmaCorrelationRule"), {}, lazy=True)
+        else:
+            rule = SObj(idx.lookup("sigma.rule.rule:SigmaRule"), {"detection": SObj("Detections", {"detections": dets})}, lazy=True)
+        me = SObj(idx.lookup(f"{CBASE}:RuleDetectionItemCondition"), {"find_detection_item": NativeFn("find", lambda I2, a, k: vs[a[0].fields["i"]])}, lazy=True)
+        return {"self": me, "args": [rule], "vs": vs, "case": case}
+
+    def post(self, I, inp, r):
+        if inp["case"] == "correlation":
+            I.ctx.require(r is False, "a correlation rule has no detection items")
+        else:
+            I.ctx.require(ops.mk_bool_term(ops.truth(I, r)) == ops.mk_or([v.t for v in inp["vs"]]), "matches iff the item is found in some detection")
+
+    def frame_ok(self, I, inp, obj, name):
+        return False
+
+
+@register
+class RuleTagMatch(Contract):
+    """RuleTagCondition.match: whether the configured tag is among the rule's tags; IsSigmaCorrelationRuleCondition: the kind of the rule"""
+    id = "C13.RuleTagCondition.match"
+    target = f"{CR}:RuleTagCondition.match"
+    props = ("C13",)
+    cases = (0, 1, 3)
+
+    def args(self, I, case):
+        tag = SObj("Tag", {})
+        tag.ghost["eq_unknown"] = "wanted"
+        tags = [SObj("Tag", {}) for _ in range(case)]
+        for i, t in enumerate(tags):
+            t.ghost["eq_unknown"] = f"tag{i}"
+        rule = SObj(I.E.index.lookup("sigma.rule.rule:SigmaRule"), {"tags": list(tags)}, lazy=True)
+        me = SObj(I.E.index.lookup(f"{CR}:RuleTagCondition"), {"match_tag": tag}, lazy=True)
+        return {"self": me, "args": [rule], "tag": tag, "tags": tags}
+
+    def post(self, I, inp, r):
+        want = ops.mk_or([ops.py_eq(I, inp["tag"], t) for t in inp["tags"]]) if inp["tags"] else z3.BoolVal(False)
+        I.ctx.require(ops.mk_bool_term(ops.truth(I, r)) == want, "holds iff the tag equals one of the rule's tags")
+
+    def frame_ok(self, I, inp, obj, name):
+        return False
+
+
+@register
+class IsCorrelationRule(Contract):
+    id = "C13.IsSigmaCorrelationRuleCondition.match"
+    target = f"{CR}:IsSigmaCorrelationRuleCondition.match"
+    props = ("C13",)
+    cases = ("sigma.rule.rule:SigmaRule", "sigma.correlations:SigmaCorrelationRule")
+    __doc__ = "IsSigmaCorrelationRuleCondition.match: true exactly for correlation rules"
+
+    def args(self, I, case):
+        return {"self": SObj(I.E.index.lookup(f"{CR}:IsSigmaCorrelationRuleCondition"), {}, lazy=True), "args": [SObj(I.E.index.lookup(case), {}, lazy=True)], "case": case}
+
+    def post(self, I, inp, r):
+        I.ctx.require(r is inp["case"].endswith("SigmaCorrelationRule"), "true exactly for correlation rules")
+
+    def frame_ok(self, I, inp, obj, name):
+        return False
+
+
+@register
+class ConditionSetPipeline(Contract):
+    """ProcessingCondition.set_pipeline / ConditionExpression.set_pipeline: bound once; re-binding is an error that keeps the first binding"""
+    id = "C13.ProcessingCondition.set_pipeline"
+    target = f"{CBASE}:ProcessingCondition.set_pipeline"
+    props = ("C13", "C14")
+    cases = (False, True)
+
+    def args(self, I, case):
+        old, new = SObj("Pipeline", {}), SObj("Pipeline", {})
+        me = SObj(I.E.index.lookup(f"{CBASE}:ProcessingCondition"), {"_pipeline": old if case else None}, lazy=True)
+        return {"self": me, "args": [new], "old": old, "new": new, "case": case}
+
+    def post(self, I, inp, r):
+        I.ctx.require(not inp["case"] and inp["self"].fields["_pipeline"] is inp["new"], "an unbound condition is bound to the given pipeline; a bound one is not re-bound")
+
+    def raises(self, I, inp, exc):
+        I.ctx.require(inp["case"] and exc_is(I, exc, "SigmaProcessingItemError") and inp["self"].fields["_pipeline"] is inp["old"], f"re-binding fails and keeps the binding (got {exc_name(exc)})")
+
+    def frame_ok(self, I, inp, obj, name):
+        return obj is inp["self"] and name == "_pipeline"
